@@ -119,6 +119,15 @@ CLAIMS = [
      "note": "similarity threshold 1.0 (exact-hash hits); real-number soundness of the pruning bound is covered by adversarial concrete placements, not by TLC; "
              "the saturating query hash found by this check was repaired by a fix: commit",
      "ref": "DESIGN.md section 6 (C07)"},
+    {"id": "C15",
+     "technique": "TLC enumerates request classes with expected outcome (Validation.tla) -> concrete requests sent to the real server binary over gRPC with census after every request and restarts -> TLC trace validation (ValidationTrace.tla over KV.tla)",
+     "text": "Validation.tla transcribes, per RPC and field, the class lattice (empty / oversize / wrong-dimension / zero / non-finite / overflowing vectors, "
+             "k / ef / id / batch-size boundaries, malformed and deeply nested filters, streams mixing valid and invalid items) with the expectation the "
+             "property gives (MustRefuse / PerItem / Accept / Either); TLC enumerates the classes; srvdrive sends seeded concrete requests to the real "
+             "kyrodb_server (auth off and on), takes a census after every request and around restarts; ValidationTrace.tla (TLC) checks: answered, next "
+             "request answered, refused => no effect live and after restart, accepted => exactly KV!Apply.",
+     "note": "dimension 4, sequential requests on one connection; SIGKILL restarts do not lose page cache (C01 owns that); two defects found by this check were repaired by fix: commits",
+     "ref": "DESIGN.md section 6 (C15)"},
 ]
 
 _PENDING = "not yet covered by the specification suite in this revision (see DESIGN.md section 11 for the construction order)"
